@@ -1731,3 +1731,174 @@ class OverlapPairwiseEndToEnd(EnumContract):
 
 
 REGISTRY.append(OverlapPairwiseEndToEnd())
+
+
+# =======================================================================================
+# C08 for slices through the public API: rows sorted by an opposing element / insertion /
+# marginal; the value the *public* measure reports must be monotone along the display order
+
+SLICE_SORT_PUBLIC = {
+    "col_base_unweighted": "column_unweighted_bases", "col_base_weighted": "column_weighted_bases", "col_index": "column_index",
+    "col_percent": "column_percentages", "col_percent_moe": "column_proportions_moe", "col_std_dev": "column_std_dev",
+    "col_std_err": "column_std_err", "population": "population_counts", "population_moe": "population_counts_moe",
+    "p_value": "pvals", "row_base_unweighted": "row_unweighted_bases", "row_base_weighted": "row_weighted_bases",
+    "row_percent": "row_percentages", "row_percent_moe": "row_proportions_moe", "row_std_dev": "row_std_dev",
+    "row_std_err": "row_std_err", "table_base_unweighted": "table_unweighted_bases", "table_base_weighted": "table_weighted_bases",
+    "table_percent": "table_percentages", "table_percent_moe": "table_proportions_moe", "table_std_dev": "table_std_dev",
+    "table_std_err": "table_std_err", "count_unweighted": "unweighted_counts", "count_weighted": "counts", "z_score": "zscores",
+}
+SLICE_SORT_MARGINAL = {"unweighted_base": "rows_base", "weighted_base": "rows_margin", "table_proportion": "rows_margin_proportion"}
+
+
+def gen_slice_sort_case(rnd):
+    rd, cd = gen_dim(rnd, "CAT", "a"), gen_dim(rnd, "CAT", "b")
+    for d in (rd, cd):
+        d.pop("doc_order", None)
+    weighted = rnd.random() < 0.5
+    rs = gen_respondents(rnd, [rd, cd], rnd.choice([0, 6, 14, 30]), weighted)
+    rids, cids = [c["id"] for c in rd["cats"]], [c["id"] for c in cd["cats"]]
+    rt, ct = {}, {}
+    if rnd.random() < 0.5:
+        ins = []
+        for k in range(rnd.choice([1, 2])):
+            pos = rnd.sample(rids, rnd.choice([1, min(2, len(rids))]))
+            one = {"function": "subtotal", "name": "s%d" % k, "anchor": rnd.choice(["top", "bottom"] + rids), "args": pos, "id": k + 1}
+            if rnd.random() < 0.3:
+                one = {"function": "subtotal", "name": "d%d" % k, "anchor": "bottom", "kwargs": {"positive": pos, "negative": rnd.sample(rids, 1)}, "id": k + 1}
+            ins.append(one)
+        rt["insertions"] = ins
+    if rnd.random() < 0.4:
+        ct["insertions"] = [{"function": "subtotal", "name": "cs", "anchor": "bottom", "args": rnd.sample(cids, rnd.choice([1, min(2, len(cids))])), "id": 1}]
+    if rnd.random() < 0.25:
+        rt["elements"] = {str(rnd.choice(rids)): {"hide": True}}
+    if rnd.random() < 0.3:
+        rt["prune"] = True
+    kind = rnd.choice(["opposing_element", "opposing_element", "opposing_insertion", "marginal"])
+    order = {"type": kind}
+    r = rnd.random()
+    if r < 0.4:
+        order["direction"] = "ascending"
+    elif r < 0.6:
+        order["direction"] = "descending"
+    if kind == "opposing_element":
+        order.update(element_id=rnd.choice(cids + [77]), measure=rnd.choice(sorted(SLICE_SORT_PUBLIC) + ["mean", "bogus_measure"]))
+    elif kind == "opposing_insertion":
+        order.update(insertion_id=rnd.choice([1, 1, 55]), measure=rnd.choice(sorted(SLICE_SORT_PUBLIC)))
+    else:
+        order.update(marginal=rnd.choice(sorted(SLICE_SORT_MARGINAL) + ["scale_mean", "bogus_marginal"]))
+    if rnd.random() < 0.4:
+        fixed = {}
+        if rnd.random() < 0.6:
+            fixed["top"] = rnd.sample(rids, 1)
+        if rnd.random() < 0.6:
+            fixed["bottom"] = rnd.sample(rids, 1)
+        if fixed:
+            order["fixed"] = fixed
+    rt["order"] = order
+    tr = {"rows_dimension": rt}
+    if ct:
+        tr["columns_dimension"] = ct
+    return dict(dims=[rd, cd], rs=rs, weighted=weighted, transforms=tr)
+
+
+class SliceSortByValue(EnumContract):
+    name = "e2e:_Slice rows sorted by opposing element / insertion / marginal (public API)"
+    props = ("C08",)
+    bound = ("CAT x CAT responses (<= 4 categories, missing anywhere, <= 30 respondents, fractional weights), row subtotals / "
+             "differences, a column subtotal, hidden / pruned rows, fixed top / bottom, every supported measure keyword plus "
+             "unsupported ones, unknown element / insertion ids; rows dimension only; seeded sample")
+    clauses = ("slice-body-monotone", "slice-nan-last-in-payload-order", "slice-population-nan-last", "slice-subtotal-group",
+               "slice-fixed-brackets", "slice-fallback-payload-order", "slice-no-duplicates", "slice-sort-exception")
+
+    def cases(self, cfg, seed, thorough):
+        rnd = random.Random(9600 + seed)
+        for _ in range(4000 if thorough else 500):
+            yield gen_slice_sort_case(rnd)
+
+    def check_case(self, case, cfg):
+        import numpy as np
+        import warnings
+        from cr.cube.cube import Cube
+
+        warnings.simplefilter("ignore")
+        dims, rs, weighted, tr = case["dims"], case["rs"], case["weighted"], case["transforms"]
+        rd, cd = dims
+        R, C = valid_elems(rd), valid_elems(cd)
+        if not R or not C:
+            return []
+        bad = set()
+        try:
+            rt = tr["rows_dimension"]
+            spec_ = rt["order"]
+            p = Cube(tabulate(dims, rs, weighted), transforms=copy.deepcopy(tr), population=1000).partitions[0]
+            order = [int(o) for o in p.row_order()]
+            if len(set(order)) != len(order):
+                bad.add("slice-no-duplicates")
+            plain = copy.deepcopy(tr)
+            plain["rows_dimension"] = {k: v for k, v in rt.items() if k != "order"}
+            p0 = Cube(tabulate(dims, rs, weighted), transforms=plain, population=1000).partitions[0]
+            payload = [int(o) for o in p0.row_order()]
+            co = [int(o) for o in p.column_order()]
+            cids = [cd["cats"][j]["id"] for j in C]
+            # which public vector is the sort key?
+            vec = None
+            if spec_["type"] == "opposing_element":
+                if spec_["measure"] in SLICE_SORT_PUBLIC and spec_["element_id"] in cids and cids.index(spec_["element_id"]) in co:
+                    vec = np.asarray(getattr(p, SLICE_SORT_PUBLIC[spec_["measure"]]), dtype=float)[:, co.index(cids.index(spec_["element_id"]))]
+                elif spec_["measure"] in SLICE_SORT_PUBLIC and spec_["element_id"] in cids:
+                    return []  # key column not displayed: nothing public to compare with
+            elif spec_["type"] == "opposing_insertion":
+                c_ins = (tr.get("columns_dimension") or {}).get("insertions") or []
+                alive = [i for i in c_ins if set(i["args"]) & set(cids)]
+                hit = [k for k, i in enumerate(alive) if i.get("id") == spec_["insertion_id"]]
+                if hit and (hit[0] - len(alive)) in co:
+                    vec = np.asarray(getattr(p, SLICE_SORT_PUBLIC[spec_["measure"]]), dtype=float)[:, co.index(hit[0] - len(alive))]
+                elif hit:
+                    return []  # key column not displayed: nothing public to compare with
+            elif spec_["marginal"] in SLICE_SORT_MARGINAL:
+                vec = np.asarray(getattr(p, SLICE_SORT_MARGINAL[spec_["marginal"]]), dtype=float)
+            if vec is None:
+                if order != payload:
+                    bad.add("slice-fallback-payload-order")
+                return sorted(bad)
+            if sorted(order) != sorted(payload):
+                bad.add("slice-no-duplicates")
+                return sorted(bad)
+            desc = spec_.get("direction", "descending") != "ascending"
+            ids = [rd["cats"][i]["id"] for i in R]
+            fixed = spec_.get("fixed") or {}
+            top = [ids.index(i) for i in fixed.get("top", []) if i in ids]
+            bottom = [ids.index(i) for i in fixed.get("bottom", []) if i in ids and ids.index(i) not in top]
+            pos = {o: k for k, o in enumerate(order)}
+            subs = [o for o in order if o < 0]
+            base = [o for o in order if o >= 0]
+            vis_top = [o for o in top if o in pos]
+            vis_bottom = [o for o in bottom if o in pos]
+            body = [o for o in base if o not in vis_top and o not in vis_bottom]
+            exp_layout = (subs if desc else []) + vis_top + body + vis_bottom + ([] if desc else subs)
+            if order != exp_layout:
+                bad.add("slice-fixed-brackets" if base != vis_top + body + vis_bottom else "slice-subtotal-group")
+            key = spec_.get("measure", "")
+            nan_clause = "slice-population-nan-last" if key.startswith("population") else "slice-nan-last-in-payload-order"
+
+            def monotone(seq, clause):
+                v = [vec[pos[o]] for o in seq]
+                fin = [x for x in v if x == x]
+                k = len(fin)
+                if any(x != x for x in v[:k]):
+                    bad.add(nan_clause)
+                    return
+                for a, b in zip(fin, fin[1:]):
+                    if (a < b - 1e-9 * max(1, abs(b))) if desc else (a > b + 1e-9 * max(1, abs(b))):
+                        bad.add(clause)
+                if list(seq[k:]) != sorted(seq[k:]):
+                    bad.add(nan_clause)
+
+            monotone(body, "slice-body-monotone")
+            monotone(subs, "slice-subtotal-group")
+        except Exception as e:
+            bad.add("slice-sort-exception:%s" % type(e).__name__)
+        return sorted(bad)
+
+
+REGISTRY.append(SliceSortByValue())
